@@ -444,7 +444,7 @@ Proof.
   destruct (melt_tokens_spec cfg mem_ks id ins w (g_inv w Hg)) as [w' [r [Hrun [_ Hr]]]]. rewrite Hrun in *. cbn [fst] in *.
   destruct r as [q'|e].
   - destruct Hr as [q [Hf [Hval Hr]]].
-    destruct (find (fun m => mq_hash m =? lq_hash q) (d_mq (w_db w))).
+    destruct (internal_mq q (w_db w)).
     + destruct Hr as [pre [_ [He _]]]. eapply melt_effect_vinv; eassumption.
     + destruct Hr as [_ [He _]]. eapply melt_effect_vinv; eassumption.
   - destruct Hr as [[Hd _]|[_ [q [Hf [Hval [He _]]]]]]; [apply (vinv_db_same w); assumption|].
@@ -594,7 +594,7 @@ Proof.
     destruct d; cbn [negb]; [|left; reflexivity].
     destruct (msat =? 0); [left; reflexivity|].
     destruct w as [db l m a n]. sx.
-    set (internal := match find (fun q => mq_hash q =? h) (d_mq db) with Some _ => true | None => false end).
+    set (internal := match same_invoice (ROk (find (fun q => mq_hash q =? h) (d_mq db))) req with Some _ => true | None => false end).
     assert (Hplan : forall (is_mpp : bool) (amount_msat qa : Z), 0 <= qa ->
        let k := fun ex : res (option lquote) => match ex with
                   | ROk (Some _) => fail EMeltExists
